@@ -89,3 +89,21 @@ Example C04_example :
       idx_if (idx_cond IGt i 0) [SExpr (EBin Lt (EField it) (elem_at ids i (-1)))] [])) = Some false /\
   guarded_sum 2 [7; 7; 6] = 14 /\ guarded_unique 2 0 [7; 6; 7] = true /\ guarded_unique 3 0 [7; 6; 7] = false.
 Proof. vm_compute. repeat split; reflexivity. Qed.
+
+(* product: the 64-bit product of exactly the exposed elements (the code's product of no elements is 0), whatever the
+   context width; unique_vec: the vectors are pairwise different as tuples of element values *)
+From PV Require Import Rand.UnrollProofs2.
+Theorem C04_product : forall G rho w sg ids ctx psg, 0 < w -> w <= 64 -> typed G w sg ids ->
+  let W := Z.max ctx 64 in
+  sem G rho ctx psg (product_expr sg ids) =
+    Some (W, wrapU W (match ids with [] => 0 | _ => zprod (map (elem_val sg w rho) ids) end)).
+Proof. exact product_expr_sem. Qed.
+Print Assumptions C04_product.
+Theorem C04_unique_vec : forall G rho w sg (vs : list (list nat)), 0 < w -> (2 <= List.length vs)%nat ->
+  (forall v, In v vs -> typed G w sg v) ->
+  (exists n, (1 <= n)%nat /\ forall v, In v vs -> List.length v = n) ->
+  (holds_all G rho (unique_vec_of vs) = Some true <->
+   forall i j a b, (i < j)%nat -> nth_error vs i = Some a -> nth_error vs j = Some b ->
+     map (fun id => wrapU w (rho id)) a <> map (fun id => wrapU w (rho id)) b).
+Proof. exact unique_vec_holds. Qed.
+Print Assumptions C04_unique_vec.
